@@ -8,13 +8,32 @@ mod verif_c09 {
     use super::*;
     use crate::verif_common::*;
 
+    // The stand-in for estimator_weight is a FUNCTION: the same age gives the same weight (memo of the distinct ages
+    // seen so far), a new age gives an arbitrary weight within the contract.
+    static mut W_AGE: [f64; 6] = [0.0; 6];
+    static mut W_VAL: [f64; 6] = [0.0; 6];
+    static mut W_N: usize = 0;
     fn stub_weight(age: f64) -> f64 {
         if age == 0.0 {
             return 1.0;
         }
-        let w: f64 = kani::any();
-        kani::assume(w >= 0.0 && w <= 1.0 - 1e-10);
-        w
+        unsafe {
+            let mut i = 0;
+            while i < 6 {
+                if i < W_N && W_AGE[i] == age {
+                    return W_VAL[i];
+                }
+                i += 1;
+            }
+            let w: f64 = kani::any();
+            kani::assume(w >= 0.0 && w <= 1.0 - 1e-10);
+            if W_N < 6 {
+                W_AGE[W_N] = age;
+                W_VAL[W_N] = w;
+                W_N += 1;
+            }
+            w
+        }
     }
 
     static mut NOW_S: u64 = 0;
@@ -33,7 +52,7 @@ mod verif_c09 {
     // @harness id=C09 tier=quick timeout=2400 mem=12
     // @bounds Estimator::new, one record(pos, t1) with pos over u64 and t1 - t0 in [0, 2^32 s), query at any now >= t1 with now > t0: rate finite, not NaN, >= 0
     #[kani::proof]
-    #[kani::unwind(4)]
+    #[kani::unwind(8)]
     #[kani::stub(crate::state::estimator_weight, stub_weight)]
     fn c09_rate_finite_one_record() {
         let t0 = mk_instant(1_000_000, 0);
@@ -54,7 +73,7 @@ mod verif_c09 {
     // @harness id=C09 tier=thorough timeout=3400 mem=14
     // @bounds as above with two record calls (positions over u64, any order incl. rewind and no-progress)
     #[kani::proof]
-    #[kani::unwind(4)]
+    #[kani::unwind(8)]
     #[kani::stub(crate::state::estimator_weight, stub_weight)]
     fn c09_rate_finite_two_records() {
         let t0 = mk_instant(1_000_000, 0);
@@ -76,7 +95,7 @@ mod verif_c09 {
     // @harness id=C09 tier=quick timeout=1200 mem=8
     // @bounds reset(now) from ARBITRARY prior field values (any f64 bit pattern incl. NaN/inf, any instants): every field except prev_steps equals Estimator::new(now); a query one ns later returns exactly 0
     #[kani::proof]
-    #[kani::unwind(4)]
+    #[kani::unwind(8)]
     #[kani::stub(crate::state::estimator_weight, stub_weight)]
     fn c09_reset_forgets_everything() {
         let a: f64 = kani::any();
@@ -103,7 +122,7 @@ mod verif_c09 {
     // @harness id=C09 tier=quick timeout=1200 mem=8
     // @bounds record() with a position below the previous one (backwards seek), arbitrary prior fields: behaves as reset(now) and remembers the new position; equal position or non-advancing time: no change at all
     #[kani::proof]
-    #[kani::unwind(4)]
+    #[kani::unwind(8)]
     #[kani::stub(crate::state::estimator_weight, stub_weight)]
     fn c09_rewind_resets() {
         let a: f64 = kani::any();
@@ -145,47 +164,90 @@ mod verif_c09 {
         kani::cover!(s < 0.0);
     }
 
-    // @harness id=C09 tier=quick timeout=2400 mem=12
-    // @bounds ProgressState with a fresh estimator + one recorded sample, frozen clock strictly after creation; pos/len over u64, all three statuses: eta == 0 when finished / length unknown / no progress seen; duration == 0 when finished / unknown; otherwise duration == elapsed + eta; per_sec finite and >= 0
-    #[kani::proof]
-    #[kani::unwind(4)]
-    #[kani::stub(crate::state::estimator_weight, stub_weight)]
-    #[kani::stub(std::time::Instant::now, stub_clock)]
-    fn c09_eta_duration_laws() {
-        let pos: u64 = kani::any();
-        let len: Option<u64> = kani::any();
-        let status: u8 = kani::any();
-        kani::assume(status < 3);
+    /// ProgressState whose estimator holds ARBITRARY finite non-negative averages (whatever history produced them),
+    /// last sample `g1` after creation, queried `g1 + g2 > 0` after creation with a frozen clock.
+    fn any_pstate(pos: u64, len: Option<u64>, status: u8) -> (ProgressState, Duration) {
         let mut ps = rig_pstate(pos, len, 0, status);
-        // one sample (or none)
-        let sampled: bool = kani::any();
+        let a: f64 = kani::any();
+        let b: f64 = kani::any();
+        kani::assume(a >= 0.0 && a <= 1e30 && b >= 0.0 && b <= 1e30);
         let g1 = any_gap();
-        if sampled {
-            ps.est.record(pos, ps.started + g1);
-        }
         let g2 = any_gap();
+        ps.est.smoothed_steps_per_sec = a;
+        ps.est.double_smoothed_steps_per_sec = b;
+        ps.est.prev_time = ps.started + g1;
+        ps.est.prev_steps = pos;
         let total = g1 + g2;
         kani::assume(total > Duration::ZERO);
         unsafe {
             NOW_S = total.as_secs();
             NOW_N = total.subsec_nanos();
         }
+        (ps, total)
+    }
+
+    // @harness id=C09 tier=quick timeout=2400 mem=10
+    // @bounds eta(): pos/len over u64, all three statuses, arbitrary finite non-negative estimator averages (<= 1e30), any query instant strictly after creation: zero when finished / length unknown / rate zero; never panics (saturating conversions)
+    #[kani::proof]
+    #[kani::unwind(8)]
+    #[kani::stub(crate::state::estimator_weight, stub_weight)]
+    #[kani::stub(std::time::Instant::now, stub_clock)]
+    fn c09_eta_zero_cases() {
+        let pos: u64 = kani::any();
+        let len: Option<u64> = kani::any();
+        let status: u8 = kani::any();
+        kani::assume(status < 3);
+        let (ps, _total) = any_pstate(pos, len, status);
         let eta = ps.eta();
-        let dur = ps.duration();
-        let rate = ps.per_sec();
-        assert!(!rate.is_nan() && rate.is_finite() && rate >= 0.0);
         if status != 0 || len.is_none() {
             assert!(eta == Duration::ZERO);
-            assert!(dur == Duration::ZERO);
-        } else {
-            assert!(dur == ps.elapsed().saturating_add(eta));
-            assert!(ps.elapsed() == total);
-            if !sampled || pos == 0 {
-                assert!(eta == Duration::ZERO); // no progress seen yet
-            }
+        }
+        if ps.est.smoothed_steps_per_sec == 0.0 && ps.est.double_smoothed_steps_per_sec == 0.0 {
+            assert!(eta == Duration::ZERO); // no progress seen yet
         }
         kani::cover!(status == 0 && len.is_some() && eta > Duration::ZERO);
+        kani::cover!(status == 2);
+        std::mem::forget(ps);
+    }
+
+    // @harness id=C09 tier=quick timeout=2400 mem=10
+    // @bounds duration() with a frozen clock: zero when finished / length unknown, otherwise elapsed + eta (saturating); elapsed is the frozen instant minus creation
+    #[kani::proof]
+    #[kani::unwind(8)]
+    #[kani::stub(crate::state::estimator_weight, stub_weight)]
+    #[kani::stub(std::time::Instant::now, stub_clock)]
+    fn c09_duration_is_elapsed_plus_eta() {
+        let pos: u64 = kani::any();
+        let len: Option<u64> = kani::any();
+        let status: u8 = kani::any();
+        kani::assume(status < 3);
+        let (ps, total) = any_pstate(pos, len, status);
+        let dur = ps.duration();
+        if status != 0 || len.is_none() {
+            assert!(dur == Duration::ZERO);
+        } else {
+            assert!(ps.elapsed() == total);
+            assert!(dur == total.saturating_add(ps.eta()));
+        }
+        kani::cover!(status == 0 && len.is_some() && dur > total);
+        std::mem::forget(ps);
+    }
+
+    // @harness id=C09 tier=quick timeout=2400 mem=10
+    // @bounds per_sec() strictly after creation: finite, not NaN, >= 0 for in-progress bars (estimator path) and finished bars (position / elapsed path)
+    #[kani::proof]
+    #[kani::unwind(8)]
+    #[kani::stub(crate::state::estimator_weight, stub_weight)]
+    #[kani::stub(std::time::Instant::now, stub_clock)]
+    fn c09_per_sec_finite() {
+        let pos: u64 = kani::any();
+        let status: u8 = kani::any();
+        kani::assume(status < 3);
+        let (ps, _total) = any_pstate(pos, None, status);
+        let rate = ps.per_sec();
+        assert!(!rate.is_nan() && rate.is_finite() && rate >= 0.0);
         kani::cover!(status == 1 && rate > 0.0);
+        kani::cover!(status == 0 && rate > 0.0);
         std::mem::forget(ps);
     }
 }
